@@ -387,7 +387,7 @@ class Graph:
             for _, c in node.inputs.items():
                 name_out = c.output_node.name
                 info = c.output_node.info
-                seqs_out = num_seqs[name_out]
+                seqs_out = num_seqs.get(name_out, 0)  # The producer may have no slot in the supergraph (e.g. pruned)
                 dummy_arr = onp.ones((seqs_out,), dtype=int) * -1
                 messages = base.MessageRecord(
                     seq_out=dummy_arr,
